@@ -188,6 +188,8 @@ pub struct World {
     pub users: Vec<String>,
     /// when set, everything observable of every step is appended (C19 transcripts)
     pub transcript: Option<Vec<String>>,
+    /// instantiations that the model rolled back so far in this history (failed or caught sub-trees, failed transactions)
+    pub rolled_back_insts: u64,
 }
 
 fn block_tuple(b: &BlockInfo) -> (u64, u64, String) {
@@ -202,7 +204,7 @@ impl World {
         let model = ChainM::new(block_tuple(&app.block_info()));
         let users = (0..3).map(|i| app.api().addr_make(&format!("user{}", i)).to_string()).collect();
         let _ = take_trace();
-        World { app, model, users, transcript: None }
+        World { app, model, users, transcript: None, rolled_back_insts: 0 }
     }
 
     pub fn new() -> World {
@@ -215,7 +217,7 @@ impl World {
         model.api = kind;
         let users = (0..3).map(|i| app.api().addr_make(&format!("user{}", i)).to_string()).collect();
         let _ = take_trace();
-        World { app, model, users, transcript: None }
+        World { app, model, users, transcript: None, rolled_back_insts: 0 }
     }
 }
 
@@ -623,6 +625,7 @@ impl World {
         let before = rawstate::dump(self.app.storage());
         let _ = take_trace();
         let _ = take_reply_gas(); // whatever other instances of this thread left behind
+        let _ = take_env_tx();
         rep.evaluations += 1;
         match op {
             Top::StoreCode { kind, creator, id } => {
@@ -768,7 +771,7 @@ impl World {
                         Ok(Err(_)) => "err".to_string(),
                         Err(_) => "panic".to_string(),
                     };
-                    t.push(format!("{} {} trace={:?} reply_gas={:?}", kind, shown, real_trace, take_reply_gas()));
+                    t.push(format!("{} {} trace={:?} reply_gas={:?} env_tx={:?}", kind, shown, real_trace, take_reply_gas(), take_env_tx()));
                 }
                 let got = match got {
                     Ok(g) => g,
@@ -887,6 +890,21 @@ impl World {
                     rep.bump("e1/footprint/checks");
                     if outside(&before) != outside(&after) {
                         discs.push(Disc { props: vec!["C08"], sig: "transaction-changed-raw-keys-outside-bank-and-wasm".into(), detail: format!("{}: {:?}", short_op(op), rawstate::diff(&outside(&before), &outside(&after))) });
+                    }
+                }
+                // an instantiation that was rolled back (now or earlier in this history) must leave no trace: an address
+                // or registry difference after one is also C02's / C01's subject
+                self.rolled_back_insts += info.out.created.iter().filter(|a| !self.model.st.contracts.contains_key(*a)).count() as u64;
+                if self.rolled_back_insts > 0 {
+                    rep.bump("e1/transactions_after_a_rolled_back_instantiation");
+                    for d in discs.iter_mut() {
+                        if ["call-ran-at-another-address", "instantiate-helper-returns-another-address", "contract-registry-differs"].contains(&d.sig.as_str()) {
+                            for p in ["C02", "C01"] {
+                                if !d.props.contains(&p) {
+                                    d.props.push(p);
+                                }
+                            }
+                        }
                     }
                 }
                 // a transaction in which a malformed response occurs: its handling (rejection, rollback, catching like
